@@ -75,7 +75,7 @@ C11 = dict(
         "c11_data_seek_prefix": H("quick", "DataSeek scalar prefix, encode side", _scalar, "lists empty; encode side only"),
         "c11_data_block_prefix": H("quick", "DataBlock scalar prefix + value 0..4 symbolic bytes, encode side", _scalar + "; value length 0..4", "lists empty; encode side only", timeout=600),
         "c11_data_upgrade_prefix": H("quick", "DataUpgrade scalar prefix, encode side", _scalar, "lists and signature empty; encode side only"),
-        "c11_data_upgrade_sig": H("quick", "DataUpgrade with signature of symbolic length 0..4, full round trip + symbolic cut", "signature: 0..4 symbolic bytes; cut k symbolic", "start/length concrete; lists empty", timeout=600),
+        "c11_data_upgrade_sig": H("thorough", "DataUpgrade with signature of symbolic length 0..4, full round trip + symbolic cut", "signature: 0..4 symbolic bytes; cut k symbolic", "start/length concrete; lists empty", timeout=600),
     },
 )
 for msg, counts in (("data_hash", (0, 1, 2)), ("data_seek", (0, 2)), ("data_block", (0, 1, 2)), ("data_upgrade", (0, 1, 2))):
@@ -99,7 +99,13 @@ C01 = dict(
     oracle="the value itself (round trip) and the reference entry layout in harness/c_oplog.rs::ref_entry",
     outside=["entries with more than 2 nodes", "user_data (always empty in this crate)"],
     harnesses={
-        "c01_entry_clear": H("quick", "clear entry (bitfield only) size/bytes/decode", "drop: bool, start,length: u64 full range", "none"),
+        "c01_entry_clear_encode": H("quick", "clear entry (bitfield only) size/bytes vs reference", "drop: bool, start,length: u64 full range", "encode side only"),
+        "c01_entry_clear_sym": H("thorough", "clear entry full round trip (replay decode), everything symbolic", "drop: bool, start, length: u64 full range", "none", timeout=600),
+        "c01_entry_clear_rt_small": H("quick", "clear entry full round trip (replay decode), start 0 / length 1", "drop", "start/length concrete"),
+        "c01_entry_clear_rt_fc_fd": H("quick", "clear entry full round trip, start 0xfc / length 0xfd", "drop", "start/length concrete"),
+        "c01_entry_clear_rt_16_32": H("quick", "clear entry full round trip, start 0xffff / length 0x10000", "drop", "start/length concrete"),
+        "c01_entry_clear_rt_32_64": H("quick", "clear entry full round trip, start 2^32-1 / length 2^32", "drop", "start/length concrete"),
+        "c01_entry_clear_rt_max": H("quick", "clear entry full round trip, start 2^64-1 / length 5", "drop", "start/length concrete"),
         "c01_entry_append": H("quick", "append entry (nodes+upgrade+bitfield) size/bytes/decode", "2 node hashes, 64 signature bytes", "scalar fields concrete (class boundaries)"),
         "c01_entry_block_only": H("quick", "block-only proof entry (nodes+bitfield) size/bytes/decode", "2 node hashes", "scalar fields concrete"),
         "c01_entry_upgrade_nodes": H("quick", "upgrade+nodes entry size/bytes/decode", "1 node hash, 64 signature bytes", "scalar fields concrete"),
@@ -255,10 +261,10 @@ C12 = dict(
 PROPS["C12"] = C12
 
 # --------------------------------------------------------------------------------------------- C09
-_TREE_RULES = [(r"IterMut.*4fold|13generic_array|GenericArray", 34), (r"nodes_to_root", 66), (r"flat_tree|9flat_tree", 45), (r"writer_tree|block_data", 8), (r"increase_cache", 10),
+_TREE_RULES = [(r"IterMut.*4fold|13generic_array|GenericArray", 34), (r"nodes_to_root", 66), (r"flat_tree|9flat_tree", 45), (r"writer_tree|block_data|prefix_sum|tree_shape|ref_tree", 70), (r"increase_cache", 10),
                (r"create_valueless_proof|upgrade_proof|block_and_seek_proof|seek_proof|seek_from_head|seek_trusted_tree|byte_offset_from_nodes|missing_nodes|verify_tree|verify_upgrade", 45),
-               (r"SigningKey13verifying_key", 34), (r"ed25519_dalek", 120), (r"blake2", 200)]
-def _T(desc, sym, bound, tier="quick", timeout=900, unwind=6):
+               (r"SigningKey13verifying_key", 34), (r"ed25519_dalek", 120), (r"6absorb", 40), (r"blake2", 200)]
+def _T(desc="", sym="", bound="", tier="quick", timeout=900, unwind=6):
     return H(tier, desc, sym, bound, rules=_TREE_RULES, timeout=timeout, unwind=unwind)
 C09 = dict(
     title="No request or proof from a peer can panic the node",
@@ -282,3 +288,63 @@ C09 = dict(
     },
 )
 PROPS["C09"] = C09
+
+# --------------------------------------------------------------------------------------------- C05
+_HR = [(r"blake2", 200), (r"IterMut.*4fold|13generic_array|GenericArray", 34), (r"any_bytes_upto4", 6)]
+C05 = dict(
+    title="Merkle tree, root hash and signature match an independent reference",
+    variant="model",
+    patterns=["c05_"],
+    functions=["hypercore::crypto::hash::{Hash::data, Hash::parent, Hash::tree, signable_tree}", "MerkleTreeChangeset::{append,append_root,hash_and_sign,hash,signable}", "flat_tree::Iterator::{sibling,parent,factor} (real dependency code)"],
+    oracle="the Hypercore v10 framing written down independently in harness/c_hash.rs; the hash function itself is a recording model (models/blake2)",
+    outside=["BLAKE2b itself and Ed25519 itself (dependencies; real BLAKE2b costs ~40 s of symbolic execution per compression, Ed25519 is out of reach)",
+             "blocks longer than 4 bytes, more than 2 roots in the framing harnesses"],
+    harnesses={
+        "c05_leaf_framing": H("quick", "bytes handed to the hash for a leaf = 0x00 || LE64(len) || data", "data: 0..4 symbolic bytes; byte positions symbolic", "block <= 4 bytes", rules=_HR, timeout=600),
+        "c05_parent_framing": H("quick", "bytes handed to the hash for a parent = 0x01 || LE64(sum) || lower-index child hash || other", "indices/lengths < 2^40, both 32-byte hashes symbolic, either argument order", "none", rules=_HR, timeout=600),
+        "c05_tree_framing_1": H("quick", "bytes handed to the hash for a 1-root set = 0x02 || hash || LE64(index) || LE64(length)", "all fields symbolic", "1 root", rules=_HR, timeout=600),
+        "c05_tree_framing_2": H("quick", "bytes handed to the hash for a 2-root set", "all fields symbolic", "2 roots", rules=_HR, timeout=600),
+        "c05_tree_shape_n2": _T("append x2: persisted nodes [leaf0, leaf2, parent1], root [parent1]; hash_and_sign signs signable(tree hash, 2, 0) with the writer key", "2 block bytes", "2 one-byte blocks", timeout=1200),
+        "c05_tree_shape_n3": _T("append x3 (two roots): node and root lists written out by hand", "3 block bytes", "3 one-byte blocks", timeout=1500, tier="thorough"),
+        "c05_tree_shape_n4": _T("append x4 (depth-2 root)", "4 block bytes; node position k", "4 one-byte blocks", timeout=1500, tier="thorough"),
+        "c05_signable_tree": H("quick", "signable = TREE namespace || root hash || LE64(length) || LE64(fork)", "hash 32 bytes, length, fork full range", "none", rules=_HR, timeout=600),
+    },
+)
+PROPS["C05"] = C05
+
+# --------------------------------------------------------------------------------------------- C03
+C03 = dict(
+    title="Any honest proof is accepted and replicas converge to the writer's data",
+    variant="model",
+    patterns=["c03_"],
+    functions=["MerkleTreeChangeset::{append,append_root,hash_and_sign,verify_and_set_signature}", "MerkleTree::{commit,create_valueless_proof,upgrade_proof,block_and_seek_proof,missing_nodes,verify_proof,byte_offset_in_changeset,commitable}", "verify_tree, verify_upgrade, NodeQueue"],
+    oracle="prefix sums of the block sizes; the writer's own nodes",
+    outside=["request sequences other than the listed scenarios (requests are concrete per harness instance: symbolic request fields exhaust memory); hash and seek requests; trees of more than 4 blocks; replica reopen; cleared blocks",
+             "hash function = deterministic fold model, signatures = ideal model (completeness must hold for every hash function)"],
+    harnesses={
+        "c03_verify_tree_block_n2": _T("verify_tree recomputes root 1 = parent(leaf(value), sibling 2) for a block-0 proof", "2 block bytes, sibling hash (32 bytes) and length < 2^40", "fixed proof shape"),
+        "c03_verify_upgrade_honest": _T("an honest full upgrade 0->1 with the writer's signature is accepted by an empty replica", "2 block bytes", "tree of 1 block"),
+        "c03_verify_proof_block_against_stored_root": _T("a block proof whose recomputed root equals the stored root is accepted and commitable", "2 block bytes, sibling hash/length", "2-block tree, replica holds the root only"),
+        "c03_n2_full_then_block": _T("writer 2 blocks; replica: block 0 + upgrade 0->2, then block 1", "block contents (1-2 bytes each) symbolic; node index k", "requests concrete", timeout=1200, tier="thorough"),
+        "c03_n2_partial_upgrade": _T("writer 2 blocks; replica: block 0 + upgrade 0->1, then block 1 + upgrade 1->2", "block contents symbolic", "requests concrete", timeout=1200, tier="thorough"),
+        "c03_n3_partial_upgrade": _T("writer 3 blocks; replica: block 1 + upgrade 0->2, then block 2 + upgrade 2->3", "block contents symbolic", "requests concrete", timeout=1500, tier="thorough"),
+        "c03_n4_far_block": _T("writer 4 blocks; replica: block 3 + upgrade 0->4, then block 0", "block contents symbolic", "requests concrete", timeout=1500, tier="thorough"),
+    },
+)
+PROPS["C03"] = C03
+
+# --------------------------------------------------------------------------------------------- C04
+C04 = dict(
+    title="Forged or altered proofs never change what a replica believes",
+    variant="model",
+    patterns=["c04_"],
+    functions=["verify_upgrade + MerkleTreeChangeset::{append_root,verify_and_set_signature,hash,signable}", "MerkleTree::verify_proof + verify_tree + required_node", "crypto::{verify, signable_tree}, Hash::{data,parent,tree}"],
+    oracle="refusal (Err) and unchanged replica roots/length",
+    outside=["only single-field alterations of two fixed proof shapes (upgrade 0->1 of a 1-block tree; block-0 proof against a stored root of a 2-block tree); node drop/duplicate/swap/insert, +-1 on indices, multi-round histories and systematic forgeries with recomputed parents are not decided",
+             "hash = fold model in which any single-byte input change changes the digest (sound for single-byte alterations only: with whole-hash substitutions the solver could use the fold's collisions); signatures = ideal model"],
+    harnesses={
+        "c04_verify_upgrade_altered": _T("the honest upgrade 0->1 with one altered field is refused", "alteration: one signature byte (position, value) | other key | signature for length 2 | fork 1 | one root-hash byte (position, value); 2 block bytes", "one alteration at a time"),
+        "c04_verify_proof_block_altered": _T("a block proof with one altered block byte or sibling-hash byte is refused; replica unchanged", "position and value of the altered byte; 2 block bytes; sibling hash/length", "one alteration at a time"),
+    },
+)
+PROPS["C04"] = C04
